@@ -39,6 +39,9 @@ class Contract:
     reveal: List[str] = dataclasses.field(default_factory=list)     # opaque macros whose definition this proof may unfold
     objects: Dict[int, str] = dataclasses.field(default_factory=dict)   # tuple arity -> "module:Class" for tuple-modelled objects
     ctor_result: Optional[str] = None    # constructor of a tuple-modelled object: the parameter the new object IS
+    attrs: Dict[str, str] = dataclasses.field(default_factory=dict)  # "param.attr" -> DSL value: ASSUMED facts about an array-like
+    #   object parameter (e.g. a Mask2D read as its bool array: pixels_in_mask == total(mask)); trusted in the proof, checked at run time
+    rt_wrap: Optional[Callable] = None   # engine C: kwargs (JSON-able) -> kwargs for the real function (e.g. ndarray -> aa.Mask2D)
     ghost_at: Dict[int, list] = dataclasses.field(default_factory=dict)  # ghost asserts / inductive lemmas before top-level statement i
     note: str = ""
     trusted: bool = False         # contract assumed, body not verified (external / out of subset)
